@@ -38,9 +38,9 @@ func (r *rng) next() uint64 {
 	z = (z ^ (z >> 27)) * 0x94d049bb133111eb
 	return z ^ (z >> 31)
 }
-func (r *rng) intn(n int) int     { return int(r.next() % uint64(n)) }
-func (r *rng) pct(p int) bool     { return r.intn(100) < p }
-func (r *rng) pick(xs []int) int  { return xs[r.intn(len(xs))] }
+func (r *rng) intn(n int) int       { return int(r.next() % uint64(n)) }
+func (r *rng) pct(p int) bool       { return r.intn(100) < p }
+func (r *rng) pick(xs []int) int    { return xs[r.intn(len(xs))] }
 func (r *rng) between(a, b int) int { return a + r.intn(b-a+1) }
 
 type line struct {
@@ -236,6 +236,7 @@ type ruleG struct {
 	pr       *proto.Rule
 	coq      string
 	criteria int
+	invalid  bool
 }
 
 // typed constants for empty lists / None (Spec.v): an untyped [] or None costs Coq's elaboration milliseconds each
@@ -339,6 +340,9 @@ func (u *universe) genRule(r *rng, action string, feat string) ruleG {
 		pr.Action = strings.ToUpper(action[:1]) + action[1:]
 	}
 	density := []int{0, 8, 20, 35}[r.intn(4)] // per-field probability scale
+	if feat == "simple" {
+		density = []int{0, 0, 8}[r.intn(3)]
+	}
 	on := func(p int) bool { return r.pct(p * density / 20) }
 	crit := 0
 
@@ -436,7 +440,11 @@ func (u *universe) genRule(r *rng, action string, feat string) ruleG {
 	}
 	if on(15) {
 		var cq []string
-		pr.DstIpSetIds, cq = u.pickSets(r, false, 1)
+		maxDst := 1
+		if r.pct(4) {
+			maxDst = 2 // out of domain (the calc graph combines them): the builder panics; the model must say so too
+		}
+		pr.DstIpSetIds, cq = u.pickSets(r, false, maxDst)
 		dstSets = coqListT(cq, "nN")
 		crit++
 	}
@@ -508,7 +516,7 @@ func (u *universe) genRule(r *rng, action string, feat string) ruleG {
 		actionCoq[strings.ToLower(action)], ipver, protoC, srcNets, srcPorts, srcNamed, dstNets, dstPorts, dstNamed, icmpC,
 		srcSets, dstSets, dstIPPort, nprotoC, notSrcNets, notSrcPorts, notDstNets, notDstPorts, notIcmpC,
 		notSrcSets, notDstSets, notSrcNamed, notDstNamed)
-	return ruleG{pr: pr, coq: fmt.Sprintf("(Build_brule %s %s %s)", rule, pnC, npnC), criteria: crit}
+	return ruleG{pr: pr, coq: fmt.Sprintf("(Build_brule %s %s %s)", rule, pnC, npnC), criteria: crit, invalid: len(pr.DstIpSetIds) > 1}
 }
 
 type caseGen struct {
@@ -519,6 +527,8 @@ type caseGen struct {
 	nCrit    int
 	matchID  uint64
 	featUsed bool
+	invalid  bool
+	rules    []*proto.Rule
 }
 
 func (g *caseGen) genRules(profile bool) ([]polprog.Rule, []string) {
@@ -546,12 +556,17 @@ func (g *caseGen) genRules(profile bool) ([]polprog.Rule, []string) {
 			f = "protoname"
 			g.featUsed = true
 		}
+		if profile && g.feat == "profile-pass" {
+			f = "simple" // few criteria, so that Pass rules match and a later profile gets to decide
+		}
 		rg := g.u.genRule(g.r, a, f)
 		g.matchID++
 		rs = append(rs, polprog.Rule{Rule: rg.pr, MatchID: g.matchID})
+		g.rules = append(g.rules, rg.pr)
 		cq = append(cq, rg.coq)
 		g.nRules++
 		g.nCrit += rg.criteria
+		g.invalid = g.invalid || rg.invalid
 	}
 	return rs, cq
 }
@@ -563,6 +578,9 @@ func (g *caseGen) genTiers(max int) ([]polprog.Tier, string) {
 	for i := 0; i < n; i++ {
 		t := polprog.Tier{Name: fmt.Sprintf("tier%d", i)}
 		np := 1 + g.r.intn(3)
+		if g.r.pct(3) {
+			np, g.invalid = 0, true // out of domain (extractTiers never hands over a tier without policies)
+		}
 		var pcq []string
 		for j := 0; j < np; j++ {
 			rs, rcq := g.genRules(false)
@@ -723,48 +741,217 @@ func (g *caseGen) probes(n int) []string {
 	protos := []int{6, 6, 6, 17, 17, 1, 58, 132, 136, 0, 47}
 	var out []string
 	for i := 0; i < n; i++ {
-		src := addrs[r.intn(len(addrs))]
-		post := addrs[r.intn(len(addrs))]
-		pre := post
+		var p probeT
+		p.src = addrs[r.intn(len(addrs))]
+		p.post = addrs[r.intn(len(addrs))]
+		p.pre = p.post
 		if r.pct(40) {
-			pre = addrs[r.intn(len(addrs))]
+			p.pre = addrs[r.intn(len(addrs))]
 		}
-		sport := ports[r.intn(len(ports))]
-		postp := ports[r.intn(len(ports))]
-		prep := postp
+		p.sport = ports[r.intn(len(ports))]
+		p.postp = ports[r.intn(len(ports))]
+		p.prep = p.postp
 		if r.pct(40) {
-			prep = ports[r.intn(len(ports))]
+			p.prep = ports[r.intn(len(ports))]
 		}
-		pr := protos[r.intn(len(protos))]
+		p.proto = protos[r.intn(len(protos))]
 		if r.pct(5) {
-			pr = r.intn(256)
+			p.proto = r.intn(256)
 		}
 		if len(pms) > 0 && r.pct(25) {
 			// aim at a named-port member
 			m := pms[r.intn(len(pms))]
-			pr, postp = m.proto, m.port
+			p.proto, p.postp = m.proto, m.port
 			if r.pct(50) {
-				sport = m.port
+				p.sport = m.port
 			}
 			if r.pct(60) {
-				prep = postp
+				p.prep = p.postp
 			}
 		}
-		it, ic := postp&0xff, postp>>8
-		if pr == 1 || pr == 58 || r.pct(15) {
+		p.it, p.ic = p.postp&0xff, p.postp>>8
+		if p.proto == 1 || p.proto == 58 || r.pct(15) {
 			x := u.icmps[r.intn(len(u.icmps))]
-			it, ic = x[0], x[1]
+			p.it, p.ic = x[0], x[1]
 			if r.pct(30) {
-				ic = r.intn(256)
+				p.ic = r.intn(256)
 			}
 		}
-		flags := uint64([]int{0, 0, 0, 4, 8, 12}[r.intn(6)])
+		p.flags = uint64([]int{0, 0, 0, 4, 8, 12}[r.intn(6)])
 		if r.pct(30) {
-			flags |= []uint64{1, 2, 0x10, 0x20, 0x400, 0x8000, 1 << 40, 1 << 63}[r.intn(8)]
+			p.flags |= []uint64{1, 2, 0x10, 0x20, 0x400, 0x8000, 1 << 40, 1 << 63}[r.intn(8)]
 		}
-		out = append(out, fmt.Sprintf("Build_pstate %s %s %s %d %d %d %d %d %d %d", src, pre, post, sport, prep, postp, pr, it, ic, flags))
+		// two probes out of three are aimed at one of the case's rules (its positive criteria satisfied as far as
+		// the generator can, on CIDR / range edges), then possibly pushed just over one edge
+		if len(g.rules) > 0 && i%3 != 0 {
+			p = g.aim(g.rules[r.intn(len(g.rules))], p)
+			if r.pct(45) {
+				p = g.perturb(p)
+			}
+		}
+		out = append(out, fmt.Sprintf("Build_pstate %s %s %s %d %d %d %d %d %d %d", p.src, p.pre, p.post, p.sport, p.prep, p.postp, p.proto, p.it, p.ic, p.flags))
 	}
 	return out
+}
+
+type probeT struct {
+	src, pre, post                    *big.Int
+	sport, prep, postp, proto, it, ic int
+	flags                             uint64
+}
+
+func protoNumOf(p *proto.Protocol) int {
+	switch x := p.NumberOrName.(type) {
+	case *proto.Protocol_Number:
+		return int(x.Number)
+	case *proto.Protocol_Name:
+		return pnameNum[strings.ToLower(x.Name)]
+	}
+	return 0
+}
+
+func (g *caseGen) netEdge(nets []string) (*big.Int, bool) {
+	var cands []cidrT
+	for _, s := range nets {
+		if strings.Contains(s, ":") != g.u.v6 {
+			continue
+		}
+		_, n, err := net.ParseCIDR(s)
+		if err != nil {
+			continue
+		}
+		ones, _ := n.Mask.Size()
+		cands = append(cands, mkCIDR(g.u.v6, new(big.Int).SetBytes(n.IP), ones))
+	}
+	if len(cands) == 0 {
+		return nil, false
+	}
+	c := cands[g.r.intn(len(cands))]
+	if g.r.pct(50) {
+		return c.first(), true
+	}
+	return c.last(), true
+}
+
+func (g *caseGen) setByName(name string) *setG {
+	for i := range g.u.netSets {
+		if g.u.netSets[i].name == name {
+			return &g.u.netSets[i]
+		}
+	}
+	for i := range g.u.portSets {
+		if g.u.portSets[i].name == name {
+			return &g.u.portSets[i]
+		}
+	}
+	return nil
+}
+
+func (g *caseGen) netSetEdge(names []string) (*big.Int, bool) {
+	for _, nm := range names {
+		if s := g.setByName(nm); s != nil && len(s.nets) > 0 {
+			c := s.nets[g.r.intn(len(s.nets))]
+			if g.r.pct(50) {
+				return c.first(), true
+			}
+			return c.last(), true
+		}
+	}
+	return nil, false
+}
+
+func (g *caseGen) portMember(names []string) (portMem, bool) {
+	for _, nm := range names {
+		if s := g.setByName(nm); s != nil && len(s.ports) > 0 {
+			return s.ports[g.r.intn(len(s.ports))], true
+		}
+	}
+	return portMem{}, false
+}
+
+func (g *caseGen) rangeEdge(prs []*proto.PortRange) (int, bool) {
+	if len(prs) == 0 {
+		return 0, false
+	}
+	pr := prs[g.r.intn(len(prs))]
+	return []int{int(pr.First), int(pr.Last), int(pr.Last), (int(pr.First) + int(pr.Last)) / 2}[g.r.intn(4)], true
+}
+
+func (g *caseGen) aim(pr *proto.Rule, p probeT) probeT {
+	if pr.Protocol != nil {
+		p.proto = protoNumOf(pr.Protocol)
+	}
+	if a, ok := g.netEdge(pr.SrcNet); ok {
+		p.src = a
+	} else if a, ok := g.netSetEdge(pr.SrcIpSetIds); ok {
+		p.src = a
+	}
+	if x, ok := g.rangeEdge(pr.SrcPorts); ok {
+		p.sport = x
+	} else if m, ok := g.portMember(pr.SrcNamedPortIpSetIds); ok {
+		p.src, p.proto, p.sport = m.addr, m.proto, m.port
+	}
+	if a, ok := g.netEdge(pr.DstNet); ok {
+		p.post = a
+	} else if a, ok := g.netSetEdge(pr.DstIpSetIds); ok {
+		p.post = a
+	}
+	if x, ok := g.rangeEdge(pr.DstPorts); ok {
+		p.postp = x
+	} else if m, ok := g.portMember(pr.DstNamedPortIpSetIds); ok {
+		p.post, p.proto, p.postp = m.addr, m.proto, m.port
+	}
+	if m, ok := g.portMember(pr.DstIpPortSetIds); ok {
+		p.post, p.proto, p.postp = m.addr, m.proto, m.port
+	}
+	if g.r.pct(70) {
+		p.pre, p.prep = p.post, p.postp
+	}
+	switch ic := pr.Icmp.(type) {
+	case *proto.Rule_IcmpType:
+		p.it = int(ic.IcmpType)
+	case *proto.Rule_IcmpTypeCode:
+		p.it, p.ic = int(ic.IcmpTypeCode.Type), int(ic.IcmpTypeCode.Code)
+	}
+	return p
+}
+
+func (g *caseGen) perturb(p probeT) probeT {
+	one := big.NewInt(1)
+	clampPort := func(x int) int {
+		if x < 0 {
+			return 0
+		}
+		if x > 65535 {
+			return 65535
+		}
+		return x
+	}
+	switch g.r.intn(9) {
+	case 0:
+		p.sport = clampPort(p.sport + 1)
+	case 1:
+		p.sport = clampPort(p.sport - 1)
+	case 2:
+		p.postp = clampPort(p.postp + 1)
+		p.prep = p.postp
+	case 3:
+		p.postp = clampPort(p.postp - 1)
+		p.prep = p.postp
+	case 4:
+		p.src = modW(g.u.v6, new(big.Int).Add(p.src, one))
+	case 5:
+		p.src = modW(g.u.v6, new(big.Int).Sub(p.src, one))
+	case 6:
+		p.post = modW(g.u.v6, new(big.Int).Add(p.post, one))
+		p.pre = p.post
+	case 7:
+		p.post = modW(g.u.v6, new(big.Int).Sub(p.post, one))
+		p.pre = p.post
+	case 8:
+		p.proto = []int{6, 17, 1, 58, 132}[g.r.intn(5)]
+	}
+	return p
 }
 
 // ---------------------------------------------------------------------------------------------- main
@@ -798,9 +985,16 @@ func main() {
 		rules := polprog.Rules{NoProfileMatchID: 999999}
 		var tiersC, profC, preC, fwdC, normC, hprofC = "nT", "nPr", "nT", "nT", "nT", "nPr"
 		shape := r.intn(10)
+		if (g.feat == "profile-pass" || g.feat == "profile-log") && r.pct(75) {
+			shape = 0 // profiles matter on workload interfaces
+		}
 		switch {
 		case shape < 4: // workload interface (possibly with host-* policy)
-			rules.Tiers, tiersC = g.genTiers(3)
+			if g.feat == "profile-pass" && r.pct(60) {
+				rules.Tiers, tiersC = nil, "nT"
+			} else {
+				rules.Tiers, tiersC = g.genTiers(3)
+			}
 			rules.Profiles, profC = g.genProfiles()
 			if r.pct(40) {
 				rules.HostPreDnatTiers, preC = g.genTiers(1)
@@ -830,6 +1024,9 @@ func main() {
 			}
 			rules.SuppressNormalHostPolicy = r.pct(10)
 			tags = append(tags, "shape:xdp")
+		}
+		if g.invalid {
+			tags = append(tags, "domain:outside")
 		}
 		feat := ""
 		if g.featUsed {
@@ -890,7 +1087,7 @@ func main() {
 		cfgC := fmt.Sprintf("%s %s %s %d %d %d %d", coqBool(v6), vrCoq, coqBool(useJmps), allow, deny, base, stride)
 		coq := fmt.Sprintf("(Build_case %s\n %s\n %s\n %s\n [%s])%%N", cfgC, rulesC, u.setsCoq(), resC, strings.Join(probes, ";\n "))
 		sort.Strings(tags)
-		l := line{Coq: coq, NT: res.kind == "ok" && g.nRules >= 2 && g.nCrit >= 1, Feat: feat, Result: res.kind + ":" + res.msg,
+		l := line{Coq: coq, NT: res.kind == "ok" && g.nRules >= 2 && g.nCrit >= 1 && !g.invalid, Feat: feat, Result: res.kind + ":" + res.msg,
 			Key:  cfgC + rulesC + u.setsCoq(),
 			Tags: tags,
 			Sample: map[string]any{"rules": g.nRules, "criteria": g.nCrit, "subprograms": len(res.progs), "instructions": nInsn,
